@@ -191,6 +191,7 @@ func runC18(c *Ctx) {
 	c18Dispatch(c, ENV)
 	// (d) and (e)
 	c12AssertsIn(c, "signer")
+	c12IndexesIn(c, "signer")
 	c07Tables(c)
 	c.MinCount("", 30, "plugin signer obligations")
 }
